@@ -3,7 +3,7 @@ CONSTANTS
   Names = {"na", "nb"}
   Types = {"tm", "tss"}
   MaxH = 4
-  Contents = {"valid", "wrongcons", "badname"}
+  Contents = {"valid", "altroot", "wrongcons", "badname"}
   Signers = {"relayer", "tss", "outsider"}
   UpgradeSetsMeta = TRUE
 INVARIANTS InitialisedInv ConsHaveMeta TssKeepsNothing
